@@ -223,7 +223,7 @@ class SeqEngine(object):
         w = self.world
         res = self.res
         mp = w.mp
-        with seam.activate(w.run, 0):
+        with seam.activate(None if w.knobs.get("real_mp") else w.run, 0):
             if self.prologue is not None:
                 self.prologue(self)
                 if res.violations:
